@@ -13,6 +13,7 @@
    including real-power easings, compared with a tolerance of 3/4096.
 4. TLC validates every recorded session against P_C06 (T_C06.tla); the recorded observations of
    TLC-generated behaviours are also compared with the model's own predictions (drift)."""
+import json
 import os
 import random
 
@@ -74,8 +75,8 @@ def mc_configs(tier):
     return quick + [
         ("wide: 3 targets, 2 initial values, delays 1..3, clock targets 1/2, <=2 sets, time<=7",
          dict(grid="Grid3", inits=(0, 1), delays=(1, 2, 3), ctgts=(1, 2), maxtime=7, maxc=3)),
-        ("deep: <=3 overlapping sets, lin/in2, dur 0/2/4, dt 1/2, time<=6",
-         dict(S=1048576, durs=(0, 2, 4), eases="Ease2", dts=(1, 2), delays=(1,), ctgts=(1,), maxsets=3, maxtime=6, maxc=1)),
+        ("deep: <=3 overlapping sets, 4 easings, dur 0/2/4, dt 1/2, delay 1, clock target 1, time<=7",
+         dict(S=1048576, durs=(0, 2, 4), eases="Ease4", dts=(1, 2), delays=(1,), ctgts=(1,), maxsets=3, maxtime=7, maxc=1)),
         ("cubic: 7 easings (powers 2 and 3), dt 1/3, <=2 sets, time<=6",
          dict(S=1048576, eases="Ease7", dts=(1, 3), delays=(2,), ctgts=(1,), maxtime=6, maxc=1)),
     ]
@@ -115,13 +116,11 @@ def scen_of(b, ty, src, scale, regress=False):
 
 
 def uniq(bs):
-    seen, out = set(), []
+    """distinct behaviours in a canonical order (TLC's multi-worker BFS prints them in any order)"""
+    seen = {}
     for b in bs:
-        h = behaviour_hash(b)
-        if h not in seen:
-            seen.add(h)
-            out.append(b)
-    return out
+        seen.setdefault(json.dumps(b, sort_keys=True), b)
+    return [seen[k] for k in sorted(seen)]
 
 
 def gen_tlc(res, tier):
@@ -170,7 +169,11 @@ def gen_finding(res):
     text = cfg_text(spec="GSpec", S=4096, durs=(2,), eases="EaseLin", dts=(1,), delays=(), ctgts=(1,), maxsets=1,
                     maxtime=100000, maxc=1, regress=True,
                     extra="  D = 6\n  SetFirst = TRUE\nCONSTRAINT Bound\nVIEW GView\nINVARIANT WG_Frozen")
-    bs = generate("Gen_Tween.tla", write_cfg("Gen_Tween_frozen.cfg", text), "bfs", timeout=600, tag="c06g")
+    # (one worker: the first counterexample found is then always the same one)
+    out = tlc_raw("Gen_Tween.tla", write_cfg("Gen_Tween_frozen.cfg", text), workers=1, timeout=600, tag="c06g")
+    bs = behaviours(out)
+    if not bs:
+        raise ToolError("the model without the clock assumption did not produce the frozen-tween behaviour: " + out[-600:])
     scen = [scen_of(b, ty, "tlc-old-model-clock-regress", 4096, regress=True) for b in bs[:1] for ty in ("f64", "db")]
     # hand-written variants: pause, reset to zero, clock removed
     for variant in ("pause", "reset", "removed"):
@@ -258,7 +261,8 @@ def run(tier):
     model_check(res, tier)
     scen = gen_tlc(res, tier) + gen_random(tier, rng)
     fscen = gen_finding(res)
-    listed = finding_listed()
+    # the clock-pause defect (D16) is repaired in kira: these histories are ordinary property-level input now
+    listed = True
     if listed:
         scen += fscen
     d = os.path.join(OUT, "c06")
